@@ -47,7 +47,7 @@ func libGoroutines() []string {
 		if !strings.Contains(first, tag) {
 			continue
 		}
-		if strings.Contains(b, "created by nhooyr.io/websocket.newConn") || strings.Contains(b, "created by nhooyr.io/websocket.(*Conn).CloseRead") {
+		if strings.Contains(b, "created by nhooyr.io/websocket.") {
 			out = append(out, b)
 		}
 	}
@@ -166,6 +166,10 @@ func runC20(r *Run) {
 				return
 			}
 			c, peer = rc.C, rc.Peer
+			if p.writes == 2 && p.ending != 16 {
+				// a transport whose Close lingers for 8 s
+				rc.Lib.CloseDelay = 8 * time.Second
+			}
 			openLib += mine
 			// cooperative raw peer: answers pings, echoes Close
 			peerEcho := p.ending != 7 && p.ending != 16
